@@ -262,12 +262,15 @@ Lemma ih_post_done t r s' : is_done r s' -> ih_post t r s'.
 Proof. intros [I ->]. split; [apply step_post_done; exact I | discriminate]. Qed.
 
 Lemma ih_post_nonrep t r s' : TInv s' -> is_chars t = false ->
-  (r = Done \/ r = DoneAckSelfClosing \/ (exists l, r = PEncoding l) \/ (exists k, r = ToRawData k)) -> ih_post t r s'.
+  (r = Done \/ r = DoneAckSelfClosing \/ (exists k, r = ToRawData k)) -> ih_post t r s'.
 Proof.
   intros I C R. split.
-  - destruct R as [->|[->|[[l ->]|[k ->]]]]; (split; [exact I | apply res_ok_nonchars; [exact C | exact Logic.I]]).
-  - destruct R as [->|[->|[[l ->]|[k ->]]]]; discriminate.
+  - destruct R as [->|[->|[k ->]]]; (split; [exact I | apply res_ok_nonchars; [exact C | exact Logic.I]]).
+  - destruct R as [->|[->|[k ->]]]; discriminate.
 Qed.
+
+Lemma in_head_arm4_start : forallb atom_is_start (nth 4 heads_in_head []) = true.
+Proof. reflexivity. Qed.
 
 Lemma step_in_head_gen_ok (in_body : body) :
   (forall s t, TInv s -> late s -> head_matches t (nth 3 heads_in_head []) = true ->
@@ -295,10 +298,10 @@ Proof.
   assert (Fin : forall r s', is_done r s' -> step_post t r s' /\ (is_reprocess r = true -> In k [9; 13])).
   { intros r s' [Is ->]. split; [apply step_post_done; exact Is | discriminate]. }
   assert (Fin2 : forall r s', TInv s' -> is_chars t = false ->
-            (r = Done \/ r = DoneAckSelfClosing \/ (exists l, r = PEncoding l) \/ (exists k, r = ToRawData k)) ->
+            (r = Done \/ r = DoneAckSelfClosing \/ (exists k, r = ToRawData k)) ->
             step_post t r s' /\ (is_reprocess r = true -> In k [9; 13])).
   { intros r s' Is C R. destruct (ih_post_nonrep t r s' Is C R) as [A B]. split; [exact A|]. intro X.
-    destruct R as [->|[->|[[l ->]|[kk ->]]]]; discriminate. }
+    destruct R as [->|[->|[kk ->]]]; discriminate. }
   arm_cases k Eb.
   - (* 0 *) apply wp_b_split. split; [split; [exact I1 | apply res_ok_split] | discriminate].
   - (* 1 *) eapply wp_mono; [apply armd_append_text; assumption | exact Fin].
@@ -306,16 +309,32 @@ Proof.
   - (* 3 <html> *) eapply wp_mono; [apply HB; assumption|]. intros r s' [A B]. split; [exact A | rewrite B; discriminate].
   - (* 4 *)
     destruct (head_safe _ _ F4 Hm) as (g & -> & N0 & N1 & N2). cbn [tk_tag]. rewrite wp_bind. unfold insert_and_pop_element_for.
-    eapply (wp_insert_element_std s1); [exact K1 | exact L1 | exact N1 | exact N2 |].
-    intros h s2 K2 _ _ _ _. rewrite wp_bind, wp_get.
-    destruct (dev_on s2 7 || is_n (tname (KTag g)) "meta").
-    + eapply (wp_meta_like_result s1); [exact K2 | exact Sc |]. intros r s3 K3 R. apply Fin2; [exact (keeps_TInv _ _ K3) | reflexivity |].
-      destruct R as [->|[l ->]]; [right; left; reflexivity | right; right; left; eauto].
+    pose proof (head_all_start _ _ in_head_arm4_start Hm) as St.
+    eapply (wp_insert_element_gen s1); [exact K1 | exact L1 |].
+    intros h s2 K2 _ _ _ CI. cbv iota. rewrite wp_bind, wp_get.
+    destruct (dev_on s2 7 || is_n (tname (KTag g)) "meta") eqn:Dm.
+    + eapply (wp_meta_like_result_out s1); [exact K2 | exact Sc |]. intros r s3 K3 [(-> & _)|(l & kk & -> & Ml & Kk & O3)].
+      * apply Fin2; [exact (keeps_TInv _ _ K3) | reflexivity | right; left; reflexivity].
+      * (* the EncodingIndicator *)
+        split; [|discriminate]. split.
+        -- split; [exact (keeps_TInv _ _ K3)|].
+           destruct CI as (ins & mid & tm & ip & dup & older & O2 & Ins).
+           exists [], kk, h, (qn_elem ns_html (tg_name g)), (tg_attrs g).
+           split; [reflexivity | split; [reflexivity|]].
+           split; [exists (out s2); split; [exact O3 | exists ins, mid, tm, ip, dup, older; split; [exact O2 | exact Ins]] |].
+           split; [reflexivity | split; [exact Kk|]].
+           intro D7. pose proof K3 as [_ S3]. pose proof K2 as [_ S2].
+           assert (D2 : dev_on s2 7 = false).
+           { unfold dev_on in *. rewrite (st_opts _ _ S2). rewrite (st_opts _ _ S3) in D7. exact D7. }
+           rewrite D2 in Dm. cbn [orb] in Dm. apply is_n_eq in Dm. exact Dm.
+        -- split; [|intro C; discriminate C].
+           exists g. split; [reflexivity | split; [|split; [exact Hm | exact Ml]]].
+           simpl in St. destruct (tg_kind g); [reflexivity | discriminate St].
     + rewrite wp_ret. apply Fin2; [exact (keeps_TInv _ _ K2) | reflexivity | right; left; reflexivity].
   - (* 5 <title> *)
     destruct (head_safe _ _ F5 Hm) as (g & -> & N0 & N1 & N2). cbn [tk_tag].
     eapply (wp_parse_raw_data s1); [exact K1 | exact L1 | exact NS1 | exact N1 | exact N2 |].
-    intros s' I' _. apply Fin2; [exact I' | reflexivity | right; right; right; eauto].
+    intros s' I' _. apply Fin2; [exact I' | reflexivity | right; right; eauto].
   - (* 6 <noframes> <style> <noscript> *)
     destruct (head_safe _ _ F6 Hm) as (g & -> & N0 & N1 & N2). cbn [tk_tag]. rewrite wp_bind, wp_get.
     destruct (negb (o_scripting (opts s1)) && is_n (tname (KTag g)) "noscript") eqn:C.
@@ -327,7 +346,7 @@ Proof.
       apply (keeps_set_mode s1); [exact K2 | eapply keeps_late; eassumption | rewrite (st_mode _ _ S2); exact NS1 | reflexivity | reflexivity |].
       intros _. rewrite (st_head _ _ S2). apply P2; [reflexivity | exact Cn].
     + eapply (wp_parse_raw_data s1); [exact K1 | exact L1 | exact NS1 | exact N1 | exact N2 |].
-      intros s' I' _. apply Fin2; [exact I' | reflexivity | right; right; right; eauto].
+      intros s' I' _. apply Fin2; [exact I' | reflexivity | right; right; eauto].
   - (* 7 <script> *)
     destruct (head_all_tag _ _ F7 Hm) as [g ->]. cbn [tk_tag]. rewrite wp_bind. unfold wp at 1. rewrite sink_create_element_eq.
     set (h := next_handle s1). set (s2 := new_elem_state _ _ _ s1).
@@ -348,7 +367,7 @@ Proof.
           rewrite (stable_ename _ _ _ S4 Kn), En; discriminate. }
       pose proof K5 as [I5 S5].
       apply wp_to_raw_text_mode; [exact I5 | eapply keeps_late; [exact K5 | exact L1] | rewrite (st_mode _ _ S5); exact NS1 |].
-      intros s' I' _. apply Fin2; [exact I' | reflexivity | right; right; right; eauto]. }
+      intros s' I' _. apply Fin2; [exact I' | reflexivity | right; right; eauto]. }
     destruct (is_fragment s2).
     + rewrite wp_emit. apply Rest.
       apply keeps_emit; [apply keeps_refl; exact (keeps_TInv _ _ K2) | reflexivity | reflexivity |]. cbn [op_okb].
